@@ -119,10 +119,34 @@ def rule_nullable_table(a: Analysis, rule_id: str) -> RuleReport:
         ('PositiveJoin(Call(rule matching empty) % token)', b.join('PositiveJoin', b.call('r', {'r': nullable_rule}), b.tok()), True, True),
         ('RuleInclude(rule matching empty)', Stub(Q['RuleInclude'], name='r', _exp=b.void()), True, True),
     ]
+    # recursive grammars: the question "can this rule match empty" must have an answer (least fixed point: a rule that refers
+    # to itself through a positive closure / a call is not nullable because of that reference)
+    from ..minieval import Obj as _Obj
+    rec_rules: dict = {}
+    gref = _Obj(rulemap=rec_rules)
+
+    def rcall(n):
+        c = Stub(Q['Call'], name=n)
+        c._attrs['grammar'] = gref
+        return c
+    rec_rules['a'] = b.box('Rule', b.choice(b.seq(b.box('PositiveClosure', rcall('a')), b.tok()), b.seq(b.tok())), name='a')
+    rec_rules['m'] = b.box('Rule', b.choice(b.seq(b.box('PositiveClosure', rcall('n')), b.tok()), b.seq(b.tok())), name='m')
+    rec_rules['n'] = b.box('Rule', b.seq(b.box('PositiveClosure', rcall('m'))), name='n')
+    cases += [
+        ("rule a = {a}+ 't' | 't' (self reference under a positive closure)", rec_rules['a'], False, False),
+        ("rule m = {n}+ 't' | 't' ; n = {m}+ (mutual reference)", rec_rules['m'], False, False),
+    ]
     for what, node, want, info in cases:
         try:
             got = _nullable(a, node)
         except Unsupported as e:
+            if 'depth exceeded' in str(e):
+                m_ = a.ct.lookup(Q['Call'], 'is_nullable')
+                rep.add({'node': what, 'is_nullable': 'does not terminate', 'table': want})
+                rep.fail(m_.qualname if m_ else node._cls, f'nullable-diverges:{what[:20]}', f'is_nullable() of {what} recurses without bound (the '
+                         f'question follows the call back into the rule being asked): tatsu.compile() of such a grammar raises '
+                         f'RecursionError instead of returning a model or a grammar error', m_.loc if m_ else '')
+                continue
             raise AnalysisError(f'cannot interpret is_nullable of {what}: {e}') from e
         rep.add({'node': what, 'is_nullable': got, 'table': want, 'informational': info})
         if got != want:
